@@ -120,14 +120,45 @@ type global struct {
 	name  string
 	print func() string
 	reset func()
+	save  func() any
+	load  func(any)
 }
 
 var globals []global
 
 // RegisterGlobal is called from generated files in instrumented packages.
 func RegisterGlobal(name string, print func() string, reset func()) {
-	globals = append(globals, global{name, print, reset})
+	globals = append(globals, global{name: name, print: print, reset: reset})
 	sort.Slice(globals, func(i, j int) bool { return globals[i].name < globals[j].name })
+}
+
+// RegisterGlobalPtr additionally lets the simulator keep one copy of the variable per simulated
+// process (SaveGlobals/LoadGlobals), so that two applications living in one OS process do not
+// share package-level state.
+func RegisterGlobalPtr[T any](name string, p *T, reset func()) {
+	globals = append(globals, global{name: name, print: func() string { return Sprint(*p) }, reset: reset,
+		save: func() any { return *p }, load: func(v any) { *p = v.(T) }})
+	sort.Slice(globals, func(i, j int) bool { return globals[i].name < globals[j].name })
+}
+
+// SaveGlobals returns the current values of all registered package-level variables (by name).
+func SaveGlobals() map[string]any {
+	out := map[string]any{}
+	for _, g := range globals {
+		if g.save != nil {
+			out[g.name] = g.save()
+		}
+	}
+	return out
+}
+
+// LoadGlobals installs values saved by SaveGlobals.
+func LoadGlobals(vals map[string]any) {
+	for _, g := range globals {
+		if v, ok := vals[g.name]; ok && g.load != nil {
+			g.load(v)
+		}
+	}
 }
 
 // ResetGlobals models a process restart for package-level variables.
